@@ -1,29 +1,34 @@
 import GuppyVerif.Spec.C06
 /-! C06 helper lemmas, part 1: the per-block checker (pass 1) seen from a single leaf.
 
-    `cstep`/`crun` is the checker's `Scope` bookkeeping projected on one linear leaf; every
-    successful run of the list-based model projects onto a successful `crun` over the leaf's
-    events (`checkBlock_proj`), and a successful `crun` simulates the ownership semantics
-    `runEvs` (`sim`). -/
+    `cstep`/`crun` is the checker's `Scope` bookkeeping projected on one leaf (in `vars`? kind
+    of the stored place? in `used_local`? in `used_parent`?); every successful run of the
+    list-based model projects onto a successful `crun` over the leaf's events
+    (`checkBlock_proj`), and a successful `crun` over well-kinded events simulates the ownership
+    semantics `runEvs` (`sim`). -/
 namespace GuppyVerif.Linearity
 
 structure LSt where
   inVars : Bool
+  kLoc : Bool
   usedLocal : Bool
   usedParent : Bool
   deriving DecidableEq, Repr
 
 def Scope.proj (s : Scope) (l : Leaf) : LSt :=
-  ⟨s.vars.contains l, s.usedLocal.contains l, s.usedParent.contains l⟩
+  ⟨s.vars.contains l, s.linVars.contains l, s.usedLocal.contains l, s.usedParent.contains l⟩
 
-/-- the checker's bookkeeping for one linear leaf under one event; `none` = some error -/
-def cstep (inPar : Bool) (c : LSt) : Ev → Option LSt
+/-- the checker's bookkeeping for one leaf under one event; `none` = some error -/
+def cstep (inPar : Bool) (c : LSt) (e : Ev) : Option LSt :=
+  match e.op with
   | .use =>
-    if c.inVars then (if c.usedLocal then none else some { c with usedLocal := true })
-    else if inPar then (if c.usedParent then none else some { c with usedParent := true })
+    if c.inVars then (if c.usedLocal && e.lin then none else some { c with usedLocal := true })
+    else if inPar then (if c.usedParent && e.lin then none else some { c with usedParent := true })
     else none
-  | .give => some { c with inVars := true, usedLocal := false }
-  | .asg => if c.inVars && !c.usedLocal then none else some { c with inVars := true, usedLocal := false }
+  | .give => some { c with inVars := true, kLoc := e.lin, usedLocal := false }
+  | .asg =>
+    if c.inVars && !c.usedLocal && c.kLoc then none
+    else some { c with inVars := true, kLoc := e.lin, usedLocal := false }
 
 def crun (inPar : Bool) (c : LSt) : List Ev → Option LSt
   | [] => some c
@@ -51,6 +56,16 @@ theorem runEvs_append (o : Bool) (es fs : List Ev) :
     | none => simp
     | some o' => simpa using ih o'
 
+theorem krun_append (k : Option Bool) (es fs : List Ev) :
+    krun k (es ++ fs) = (krun k es).bind fun k' => krun k' fs := by
+  induction es generalizing k with
+  | nil => simp [krun]
+  | cons e es ih =>
+    simp only [List.cons_append, krun]
+    cases Ev.kstep k e with
+    | none => simp
+    | some k' => simpa using ih k'
+
 /-! ### list-set bookkeeping -/
 
 @[simp] theorem mem_ins (x y : Leaf) (l : List Leaf) : y ∈ ins x l ↔ y ∈ l ∨ y = x := by
@@ -68,99 +83,129 @@ theorem runEvs_append (o : Bool) (es fs : List Ev) :
 @[simp] theorem mem_filter_ne (x y : Leaf) (l : List Leaf) : y ∈ l.filter (· != x) ↔ y ∈ l ∧ y ≠ x := by
   simp [List.mem_filter]
 
-/-! ### pass 1 projected on one linear leaf -/
+theorem assign_proj_eq (s : Scope) (x : Leaf) (k : Bool) :
+    (s.assign (x, k)).proj x = ⟨true, k, false, s.usedParent.contains x⟩ := by
+  cases k <;> simp [Scope.proj, Scope.assign]
 
-theorem useLeaf_ok {P : Prog} {s s' : Scope} {x : Leaf} (h : useLeaf P s x = .ok s') :
-    (x ∈ s.vars ∧ ¬(x ∈ s.usedLocal ∧ P.lin x = true) ∧ s' = { s with usedLocal := ins x s.usedLocal }) ∨
-    (x ∉ s.vars ∧ x ∈ s.parent ∧ ¬(x ∈ s.usedParent ∧ P.lin x = true) ∧
-      s' = { s with usedParent := ins x s.usedParent }) := by
+theorem assign_proj_ne (s : Scope) {x l : Leaf} (k : Bool) (h : x ≠ l) :
+    (s.assign (x, k)).proj l = s.proj l := by
+  have : l ≠ x := fun e => h e.symm
+  cases k <;> simp [Scope.proj, Scope.assign, this]
+
+/-! ### pass 1 projected on one leaf -/
+
+theorem useLeaf_ok {s s' : Scope} {xk : Leaf × Bool} (h : useLeaf s xk = .ok s') :
+    (xk.1 ∈ s.vars ∧ ¬(xk.1 ∈ s.usedLocal ∧ xk.2 = true) ∧ s' = { s with usedLocal := ins xk.1 s.usedLocal }) ∨
+    (xk.1 ∉ s.vars ∧ xk.1 ∈ s.parent ∧ ¬(xk.1 ∈ s.usedParent ∧ xk.2 = true) ∧
+      s' = { s with usedParent := ins xk.1 s.usedParent }) := by
+  obtain ⟨x, k⟩ := xk
   unfold useLeaf Scope.used Scope.use at h
+  simp only at h ⊢
   by_cases hv : x ∈ s.vars
-  · by_cases hc : x ∈ s.usedLocal ∧ P.lin x = true
+  · by_cases hc : x ∈ s.usedLocal ∧ k = true
     · simp [hv, hc.1, hc.2] at h
     · left
       refine ⟨hv, hc, ?_⟩
       by_cases hu : x ∈ s.usedLocal
-      · have hl : P.lin x = false := by simpa using fun h' => hc ⟨hu, h'⟩
+      · have hl : k = false := by simpa using fun h' => hc ⟨hu, h'⟩
         simp [hv, hu, hl] at h
         exact h.symm
       · simp [hv, hu] at h
         exact h.symm
   · by_cases hp : x ∈ s.parent
-    · by_cases hc : x ∈ s.usedParent ∧ P.lin x = true
+    · by_cases hc : x ∈ s.usedParent ∧ k = true
       · simp [hv, hp, hc.1, hc.2] at h
       · right
         refine ⟨hv, hp, hc, ?_⟩
         by_cases hu : x ∈ s.usedParent
-        · have hl : P.lin x = false := by simpa using fun h' => hc ⟨hu, h'⟩
+        · have hl : k = false := by simpa using fun h' => hc ⟨hu, h'⟩
           simp [hv, hp, hu, hl] at h
           exact h.symm
         · simp [hv, hp, hu] at h
           exact h.symm
     · simp [hv, hp] at h
 
-theorem useLeaf_proj {P : Prog} {l : Leaf} (hl : P.lin l = true) {s s' : Scope} {x : Leaf}
-    (h : useLeaf P s x = .ok s') :
-    s'.parent = s.parent ∧
-      (if x = l then cstep (s.parent.contains l) (s.proj l) .use = some (s'.proj l)
-       else s'.proj l = s.proj l) := by
+theorem useLeaf_parent {s s' : Scope} {xk : Leaf × Bool} (h : useLeaf s xk = .ok s') :
+    s'.parent = s.parent ∧ s'.linParent = s.linParent := by
+  rcases useLeaf_ok h with ⟨_, _, rfl⟩ | ⟨_, _, _, rfl⟩ <;> exact ⟨rfl, rfl⟩
+
+theorem useLeaf_proj {l : Leaf} {s s' : Scope} {xk : Leaf × Bool} (h : useLeaf s xk = .ok s') :
+    if xk.1 = l then cstep (s.parent.contains l) (s.proj l) ⟨.use, xk.2⟩ = some (s'.proj l)
+    else s'.proj l = s.proj l := by
+  obtain ⟨x, k⟩ := xk
   rcases useLeaf_ok h with ⟨hv, hu, rfl⟩ | ⟨hv, hp, hu, rfl⟩
-  · refine ⟨rfl, ?_⟩
+  · simp only at hv hu ⊢
     by_cases hxl : x = l
     · subst hxl
-      have hu' : x ∉ s.usedLocal := fun h' => hu ⟨h', hl⟩
-      simp [Scope.proj, cstep, hv, hu']
+      by_cases hul : x ∈ s.usedLocal
+      · have : k = false := by simpa using fun h' => hu ⟨hul, h'⟩
+        simp [Scope.proj, cstep, hv, hul, this]
+      · simp [Scope.proj, cstep, hv, hul]
     · have : l ≠ x := fun e => hxl e.symm
       simp [Scope.proj, hxl, this]
-  · refine ⟨rfl, ?_⟩
+  · simp only at hv hp hu ⊢
     by_cases hxl : x = l
     · subst hxl
-      have hu' : x ∉ s.usedParent := fun h' => hu ⟨h', hl⟩
-      simp [Scope.proj, cstep, hv, hp, hu']
+      by_cases hul : x ∈ s.usedParent
+      · have : k = false := by simpa using fun h' => hu ⟨hul, h'⟩
+        simp [Scope.proj, cstep, hv, hp, hul, this]
+      · simp [Scope.proj, cstep, hv, hp, hul]
     · have : l ≠ x := fun e => hxl e.symm
       simp [Scope.proj, hxl, this]
 
-theorem assignLeaf_proj {P : Prog} {l : Leaf} (hl : P.lin l = true) {s s' : Scope} {x : Leaf}
-    (h : assignLeaf P s x = .ok s') :
-    s'.parent = s.parent ∧
-      (if x = l then cstep (s.parent.contains l) (s.proj l) .asg = some (s'.proj l)
-       else s'.proj l = s.proj l) := by
+theorem assignLeaf_parent {s s' : Scope} {xk : Leaf × Bool} (h : assignLeaf s xk = .ok s') :
+    s'.parent = s.parent ∧ s'.linParent = s.linParent := by
+  unfold assignLeaf at h
+  split at h
+  · cases h
+  · cases h; exact ⟨rfl, rfl⟩
+
+theorem assignLeaf_proj {l : Leaf} {s s' : Scope} {xk : Leaf × Bool} (h : assignLeaf s xk = .ok s') :
+    if xk.1 = l then cstep (s.parent.contains l) (s.proj l) ⟨.asg, xk.2⟩ = some (s'.proj l)
+    else s'.proj l = s.proj l := by
+  obtain ⟨x, k⟩ := xk
   unfold assignLeaf at h
   split at h
   · cases h
   · rename_i hc
     cases h
-    refine ⟨rfl, ?_⟩
     by_cases hxl : x = l
     · subst hxl
       simp only [if_true]
-      simp [hl] at hc
+      rw [assign_proj_eq]
+      simp only [Bool.and_eq_true, Bool.not_eq_true', List.contains_iff_mem, not_and,
+        Bool.not_eq_true, and_imp] at hc
       by_cases hv : x ∈ s.vars
-      · have := hc hv
-        simp [Scope.proj, Scope.assign, cstep, hv, this]
-      · simp [Scope.proj, Scope.assign, cstep, hv]
-    · have : l ≠ x := fun e => hxl e.symm
-      simp [Scope.proj, Scope.assign, hxl, this]
+      · by_cases hu : x ∈ s.usedLocal
+        · simp [Scope.proj, cstep, hv, hu]
+        · have hk := hc hv (by simpa using hu)
+          have hk' : x ∉ s.linVars := by simpa using hk
+          simp [Scope.proj, cstep, hv, hu, hk']
+      · simp [Scope.proj, cstep, hv]
+    · simp only [hxl, if_false]
+      exact assign_proj_ne s k hxl
 
-theorem assign_proj (l : Leaf) (s : Scope) (x : Leaf) :
-    (s.assign x).parent = s.parent ∧
-      (if x = l then cstep (s.parent.contains l) (s.proj l) .give = some ((s.assign x).proj l)
-       else (s.assign x).proj l = s.proj l) := by
-  refine ⟨rfl, ?_⟩
+theorem assign_proj (l : Leaf) (s : Scope) (xk : Leaf × Bool) :
+    if xk.1 = l then cstep (s.parent.contains l) (s.proj l) ⟨.give, xk.2⟩ = some ((s.assign xk).proj l)
+    else (s.assign xk).proj l = s.proj l := by
+  obtain ⟨x, k⟩ := xk
   by_cases hxl : x = l
   · subst hxl
-    simp [Scope.proj, Scope.assign, cstep]
-  · have : l ≠ x := fun e => hxl e.symm
-    simp [Scope.proj, Scope.assign, hxl, this]
+    simp only [if_true]
+    rw [assign_proj_eq]
+    simp [Scope.proj, cstep]
+  · simp only [hxl, if_false]
+    exact assign_proj_ne s k hxl
 
 /-- a monadic fold whose steps project to event lists projects to their concatenation; the
     side conditions `Q` established by the steps hold for all elements -/
 theorem foldlM_proj {α : Type} (l : Leaf) (f : Scope → α → R Scope) (ev : α → List Ev) (Q : α → Prop)
     (hf : ∀ s s' a, f s a = .ok s' →
-      s'.parent = s.parent ∧ crun (s.parent.contains l) (s.proj l) (ev a) = some (s'.proj l) ∧ Q a) :
+      (s'.parent = s.parent ∧ s'.linParent = s.linParent) ∧
+        crun (s.parent.contains l) (s.proj l) (ev a) = some (s'.proj l) ∧ Q a) :
     ∀ (as : List α) (s s' : Scope), as.foldlM f s = .ok s' →
-      s'.parent = s.parent ∧ crun (s.parent.contains l) (s.proj l) (as.flatMap ev) = some (s'.proj l) ∧
-        ∀ a ∈ as, Q a := by
+      (s'.parent = s.parent ∧ s'.linParent = s.linParent) ∧
+        crun (s.parent.contains l) (s.proj l) (as.flatMap ev) = some (s'.proj l) ∧ ∀ a ∈ as, Q a := by
   intro as
   induction as with
   | nil =>
@@ -177,19 +222,20 @@ theorem foldlM_proj {α : Type} (l : Leaf) (f : Scope → α → R Scope) (ev : 
       rw [h1] at h
       obtain ⟨hp1, hc1, hq1⟩ := hf s s1 a h1
       obtain ⟨hp2, hc2, hq2⟩ := ih s1 s' h
-      refine ⟨hp2.trans hp1, ?_, ?_⟩
+      refine ⟨⟨hp2.1.trans hp1.1, hp2.2.trans hp1.2⟩, ?_, ?_⟩
       · rw [List.flatMap_cons, crun_append, hc1]
         simp only [Option.bind]
-        rw [← hp1]; exact hc2
+        rw [← hp1.1]; exact hc2
       · intro b hb
         rcases List.mem_cons.mp hb with rfl | hb
         · exact hq1
         · exact hq2 b hb
 
 theorem foldl_proj {α : Type} (l : Leaf) (f : Scope → α → Scope) (ev : α → List Ev)
-    (hf : ∀ s a, (f s a).parent = s.parent ∧ crun (s.parent.contains l) (s.proj l) (ev a) = some ((f s a).proj l)) :
+    (hf : ∀ s a, ((f s a).parent = s.parent ∧ (f s a).linParent = s.linParent) ∧
+      crun (s.parent.contains l) (s.proj l) (ev a) = some ((f s a).proj l)) :
     ∀ (as : List α) (s : Scope),
-      (as.foldl f s).parent = s.parent ∧
+      ((as.foldl f s).parent = s.parent ∧ (as.foldl f s).linParent = s.linParent) ∧
         crun (s.parent.contains l) (s.proj l) (as.flatMap ev) = some ((as.foldl f s).proj l) := by
   intro as
   induction as with
@@ -198,10 +244,10 @@ theorem foldl_proj {α : Type} (l : Leaf) (f : Scope → α → Scope) (ev : α 
     intro s
     obtain ⟨hp1, hc1⟩ := hf s a
     obtain ⟨hp2, hc2⟩ := ih (f s a)
-    refine ⟨by simpa using hp2.trans hp1, ?_⟩
+    refine ⟨⟨by simpa using hp2.1.trans hp1.1, by simpa using hp2.2.trans hp1.2⟩, ?_⟩
     rw [List.flatMap_cons, crun_append, hc1]
     simp only [Option.bind, List.foldl_cons]
-    rw [← hp1]; exact hc2
+    rw [← hp1.1]; exact hc2
 
 theorem crun_ite (inPar : Bool) (c c' : LSt) (e : Ev) (x l : Leaf)
     (h : if x = l then cstep inPar c e = some c' else c' = c) :
@@ -212,38 +258,56 @@ theorem crun_ite (inPar : Bool) (c c' : LSt) (e : Ev) (x l : Leaf)
   · simp only [hx, if_false] at h ⊢
     simp [crun, h]
 
-theorem visitPlace_proj {P : Prog} {l : Leaf} (hl : P.lin l = true) {borrow : Bool} {s s' : Scope} {p : Place}
+theorem visitPlace_proj {P : Prog} {l : Leaf} {borrow : Bool} {s s' : Scope} {p : Place}
     (h : visitPlace P borrow s p = .ok s') :
-    s'.parent = s.parent ∧ crun (s.parent.contains l) (s.proj l) (leafEvs .use l p.leaves) = some (s'.proj l) ∧
+    (s'.parent = s.parent ∧ s'.linParent = s.linParent) ∧
+      crun (s.parent.contains l) (s.proj l) (leafEvs .use l p.leaves) = some (s'.proj l) ∧
       (borrow = false → isInoutVar P p = false) := by
   unfold visitPlace at h
   split at h
   · cases h
   · rename_i hc
-    have := foldlM_proj l (useLeaf P) (fun x => if x = l then [Ev.use] else []) (fun _ => True)
-      (fun s s' x hx => by
-        obtain ⟨hp, hx'⟩ := useLeaf_proj hl hx
-        exact ⟨hp, crun_ite _ _ _ _ _ _ hx', trivial⟩) p.leaves s s' h
+    have := foldlM_proj l useLeaf (fun xk => if xk.1 = l then [⟨Op.use, xk.2⟩] else []) (fun _ => True)
+      (fun s s' xk hx => ⟨useLeaf_parent hx, crun_ite _ _ _ _ _ _ (useLeaf_proj hx), trivial⟩) p.leaves s s' h
     refine ⟨this.1, this.2.1, ?_⟩
     intro hb
     subst hb
     simpa using hc
 
-theorem assignTarget_proj {P : Prog} {l : Leaf} (hl : P.lin l = true) {s s' : Scope} {t : Place}
+theorem givePlace_proj (l : Leaf) (s : Scope) (p : Place) :
+    ((givePlace s p).parent = s.parent ∧ (givePlace s p).linParent = s.linParent) ∧
+      crun (s.parent.contains l) (s.proj l) (leafEvs .give l p.leaves) = some ((givePlace s p).proj l) :=
+  foldl_proj l Scope.assign (fun xk => if xk.1 = l then [⟨Op.give, xk.2⟩] else [])
+    (fun s xk => ⟨⟨rfl, rfl⟩, crun_ite _ _ _ _ _ _ (assign_proj l s xk)⟩) p.leaves s
+
+theorem doAct_proj {P : Prog} {l : Leaf} {s s' : Scope} {a : Act} (h : doAct P s a = .ok s') :
+    (s'.parent = s.parent ∧ s'.linParent = s.linParent) ∧
+      crun (s.parent.contains l) (s.proj l) (a.evs l) = some (s'.proj l) ∧ a.StaticOK P := by
+  cases a with
+  | use p borrow =>
+    simp only [doAct] at h
+    exact visitPlace_proj h
+  | give p =>
+    simp only [doAct] at h
+    cases h
+    exact ⟨(givePlace_proj l s p).1, (givePlace_proj l s p).2, trivial⟩
+  | dropAfter => simp [doAct] at h
+
+theorem assignTarget_proj {P : Prog} {l : Leaf} {s s' : Scope} {t : Place}
     (h : assignTarget P s t = .ok s') :
-    s'.parent = s.parent ∧ crun (s.parent.contains l) (s.proj l) (leafEvs .asg l t.leaves) = some (s'.proj l) := by
+    (s'.parent = s.parent ∧ s'.linParent = s.linParent) ∧
+      crun (s.parent.contains l) (s.proj l) (leafEvs .asg l t.leaves) = some (s'.proj l) := by
   unfold assignTarget at h
   split at h
   · cases h
-  · have := foldlM_proj l (assignLeaf P) (fun x => if x = l then [Ev.asg] else []) (fun _ => True)
-      (fun s s' x hx => by
-        obtain ⟨hp, hx'⟩ := assignLeaf_proj hl hx
-        exact ⟨hp, crun_ite _ _ _ _ _ _ hx', trivial⟩) t.leaves s s' h
+  · have := foldlM_proj l assignLeaf (fun xk => if xk.1 = l then [⟨Op.asg, xk.2⟩] else []) (fun _ => True)
+      (fun s s' xk hx => ⟨assignLeaf_parent hx, crun_ite _ _ _ _ _ _ (assignLeaf_proj hx), trivial⟩) t.leaves s s' h
     exact ⟨this.1, this.2.1⟩
 
-theorem assignTargets_proj {P : Prog} {l : Leaf} (hl : P.lin l = true) {s s' : Scope} {tgts : List Place}
+theorem assignTargets_proj {P : Prog} {l : Leaf} {s s' : Scope} {tgts : List Place}
     (h : assignTargets P s tgts = .ok s') :
-    s'.parent = s.parent ∧ crun (s.parent.contains l) (s.proj l) (placesEvs .asg l tgts) = some (s'.proj l) ∧
+    (s'.parent = s.parent ∧ s'.linParent = s.linParent) ∧
+      crun (s.parent.contains l) (s.proj l) (tgts.flatMap fun t => leafEvs .asg l t.leaves) = some (s'.proj l) ∧
       ∀ t ∈ tgts, isInoutVar P t = false := by
   unfold assignTargets at h
   cases h1 : tgts.foldlM (assignTarget P) s with
@@ -256,199 +320,60 @@ theorem assignTargets_proj {P : Prog} {l : Leaf} (hl : P.lin l = true) {s s' : S
       obtain rfl : s1 = s' := by simpa using h
       have := foldlM_proj l (assignTarget P) (fun t => leafEvs .asg l t.leaves) (fun _ => True)
         (fun s s' t ht => by
-          obtain ⟨hp, hx'⟩ := assignTarget_proj hl ht
+          obtain ⟨hp, hx'⟩ := assignTarget_proj (l := l) ht
           exact ⟨hp, hx', trivial⟩) tgts s s1 h1
       refine ⟨this.1, this.2.1, ?_⟩
       intro t ht
       simp only [List.any_eq_true, not_exists, not_and] at hc
       simpa using hc t ht
 
-theorem giveEvs_eq (l : Leaf) (args : List Arg) :
-    placesEvs .give l ((args.filter Arg.isInout).map Arg.place) =
-      args.flatMap (fun a => if a.isInout then leafEvs .give l a.place.leaves else []) := by
-  unfold placesEvs
-  induction args with
-  | nil => simp
-  | cons a as ih =>
-    by_cases ha : a.isInout = true
-    · simp [List.filter_cons, ha, ih]
-    · simp [List.filter_cons, ha, ih]
-
-theorem reassignInout_proj (l : Leaf) (s : Scope) (args : List Arg) :
-    (reassignInout s args).parent = s.parent ∧
-      crun (s.parent.contains l) (s.proj l) (placesEvs .give l ((args.filter Arg.isInout).map Arg.place)) =
-        some ((reassignInout s args).proj l) := by
-  have h := foldl_proj l (fun s (a : Arg) => if a.isInout then a.place.leaves.foldl Scope.assign s else s)
-    (fun a => if a.isInout then leafEvs .give l a.place.leaves else [])
-    (fun s a => by
-      by_cases ha : a.isInout = true
-      · simp only [ha, if_true]
-        have := foldl_proj l Scope.assign (fun x => if x = l then [Ev.give] else [])
-          (fun s x => by
-            obtain ⟨hp, hx⟩ := assign_proj l s x
-            exact ⟨hp, crun_ite _ _ _ _ _ _ hx⟩) a.place.leaves s
-        exact this
-      · simp [ha, crun]) args s
-  unfold reassignInout
-  refine ⟨h.1, ?_⟩
-  have he := giveEvs_eq l args
-  rw [he]
-  exact h.2
-
-theorem checkStmt_proj {P : Prog} {l : Leaf} (hl : P.lin l = true) {s s' : Scope} {st : Stmt}
-    (h : checkStmt P s st = .ok s') :
-    s'.parent = s.parent ∧ crun (s.parent.contains l) (s.proj l) (st.evs l) = some (s'.proj l) ∧ st.StaticOK P := by
-  cases st with
-  | move tgts srcs =>
-    simp only [checkStmt] at h
-    cases h1 : srcs.foldlM (visitPlace P false) s with
-    | error e => simp [h1, bind, Except.bind] at h
-    | ok s1 =>
-      simp only [h1, bind, Except.bind] at h
-      have a := foldlM_proj l (visitPlace P false) (fun p => leafEvs .use l p.leaves)
-        (fun p => isInoutVar P p = false)
-        (fun s s' p hp => by
-          obtain ⟨x, y, z⟩ := visitPlace_proj hl hp
-          exact ⟨x, y, z rfl⟩) srcs s s1 h1
-      obtain ⟨b1, b2, b3⟩ := assignTargets_proj hl h
-      refine ⟨b1.trans a.1, ?_, a.2.2, b3⟩
-      simp only [Stmt.evs, crun_append]
-      unfold placesEvs
-      rw [a.2.1]
-      simp only [Option.bind]
-      rw [← a.1]; exact b2
-  | call tgts args d =>
-    simp only [checkStmt] at h
-    cases h1 : visitArgs P s args with
-    | error e => simp [h1, bind, Except.bind] at h
-    | ok s1 =>
-      simp only [h1, bind, Except.bind] at h
-      split at h
-      · cases h
-      · rename_i hd
-        have a := foldlM_proj l (fun s (a : Arg) => visitPlace P a.isInout s a.place)
-          (fun a => leafEvs .use l a.place.leaves)
-          (fun a => a.isInout = false → isInoutVar P a.place = false)
-          (fun s s' a hp => visitPlace_proj hl hp) args s s1 h1
-        obtain ⟨r1, r2⟩ := reassignInout_proj l s1 args
-        obtain ⟨b1, b2, b3⟩ := assignTargets_proj hl h
-        refine ⟨(b1.trans r1).trans a.1, ?_, a.2.2, b3, by simpa using hd⟩
-        simp only [Stmt.evs, crun_append]
-        have he : placesEvs .use l (args.map Arg.place) = args.flatMap fun a => leafEvs .use l a.place.leaves := by
-          unfold placesEvs
-          simp [List.flatMap_map]
-        rw [he, a.2.1]
-        simp only [Option.bind]
-        rw [← a.1, r2]
-        simp only [Option.bind]
-        rw [← r1]; exact b2
-  | ret srcs =>
-    simp only [checkStmt] at h
-    have a := foldlM_proj l (visitPlace P false) (fun p => leafEvs .use l p.leaves)
-      (fun p => isInoutVar P p = false)
-      (fun s s' p hp => by
-        obtain ⟨x, y, z⟩ := visitPlace_proj hl hp
-        exact ⟨x, y, z rfl⟩) srcs s s' h
-    exact ⟨a.1, a.2.1, a.2.2⟩
-
-theorem checkBlock_proj {P : Prog} {l : Leaf} (hl : P.lin l = true) {b : Blk} {s : Scope}
-    (h : checkBlock P b = .ok s) :
-    s.parent = (initScope P b).parent ∧
-      crun ((initScope P b).parent.contains l) ((initScope P b).proj l) ((P.stmts b).flatMap (Stmt.evs l)) =
-        some (s.proj l) ∧
-      ∀ st ∈ P.stmts b, st.StaticOK P := by
-  unfold checkBlock at h
-  exact foldlM_proj l (checkStmt P) (Stmt.evs l) (Stmt.StaticOK P) (fun s s' st hs => checkStmt_proj hl hs)
-    (P.stmts b) (initScope P b) s h
-
-/-! ### the path-independent rules, without reference to a leaf -/
-
-theorem foldlM_all {α : Type} (f : Scope → α → R Scope) (Q : α → Prop)
-    (hf : ∀ s s' a, f s a = .ok s' → Q a) :
-    ∀ (as : List α) (s s' : Scope), as.foldlM f s = .ok s' → ∀ a ∈ as, Q a := by
-  intro as
-  induction as with
-  | nil => intro s s' _ a ha; cases ha
-  | cons a as ih =>
-    intro s s' h
-    rw [List.foldlM_cons] at h
-    cases h1 : f s a with
-    | error e => rw [h1] at h; cases h
-    | ok s1 =>
-      rw [h1] at h
-      intro b hb
-      rcases List.mem_cons.mp hb with rfl | hb
-      · exact hf s s1 _ h1
-      · exact ih s1 s' h b hb
-
-theorem visitPlace_static {P : Prog} {borrow : Bool} {s s' : Scope} {p : Place}
-    (h : visitPlace P borrow s p = .ok s') : borrow = false → isInoutVar P p = false := by
-  unfold visitPlace at h
-  split at h
-  · cases h
-  · rename_i hc
-    intro hb
-    subst hb
-    simpa using hc
-
-theorem assignTargets_static {P : Prog} {s s' : Scope} {tgts : List Place}
-    (h : assignTargets P s tgts = .ok s') : ∀ t ∈ tgts, isInoutVar P t = false := by
-  unfold assignTargets at h
-  cases h1 : tgts.foldlM (assignTarget P) s with
+theorem checkStmt_proj {P : Prog} {l : Leaf} {s s' : Scope} {st : Stmt} (h : checkStmt P s st = .ok s') :
+    (s'.parent = s.parent ∧ s'.linParent = s.linParent) ∧
+      crun (s.parent.contains l) (s.proj l) (st.evs l) = some (s'.proj l) ∧ st.StaticOK P := by
+  unfold checkStmt at h
+  cases h1 : st.acts.foldlM (doAct P) s with
   | error e => simp [h1, bind, Except.bind] at h
   | ok s1 =>
     simp only [h1, bind, Except.bind] at h
     split at h
     · cases h
-    · rename_i hc
-      intro t ht
-      simp only [List.any_eq_true, not_exists, not_and] at hc
-      simpa using hc t ht
+    · rename_i hd
+      have a := foldlM_proj l (doAct P) (Act.evs l) (Act.StaticOK P) (fun s s' a ha => doAct_proj ha) st.acts s s1 h1
+      obtain ⟨b1, b2, b3⟩ := assignTargets_proj (l := l) h
+      refine ⟨⟨b1.1.trans a.1.1, b1.2.trans a.1.2⟩, ?_, a.2.2, b3, by simpa using hd⟩
+      unfold Stmt.evs
+      rw [crun_append, a.2.1]
+      simp only [Option.bind]
+      rw [← a.1.1]; exact b2
 
-theorem checkStmt_static {P : Prog} {s s' : Scope} {st : Stmt} (h : checkStmt P s st = .ok s') :
-    st.StaticOK P := by
-  cases st with
-  | move tgts srcs =>
-    simp only [checkStmt] at h
-    cases h1 : srcs.foldlM (visitPlace P false) s with
-    | error e => simp [h1, bind, Except.bind] at h
-    | ok s1 =>
-      simp only [h1, bind, Except.bind] at h
-      exact ⟨foldlM_all _ _ (fun s s' p hp => visitPlace_static hp rfl) srcs s s1 h1, assignTargets_static h⟩
-  | call tgts args d =>
-    simp only [checkStmt] at h
-    cases h1 : visitArgs P s args with
-    | error e => simp [h1, bind, Except.bind] at h
-    | ok s1 =>
-      simp only [h1, bind, Except.bind] at h
-      split at h
-      · cases h
-      · rename_i hd
-        exact ⟨foldlM_all (fun s (a : Arg) => visitPlace P a.isInout s a.place)
-            (fun a => a.isInout = false → isInoutVar P a.place = false)
-            (fun s s' a hp => visitPlace_static hp) args s s1 h1,
-          assignTargets_static h, by simpa using hd⟩
-  | ret srcs =>
-    simp only [checkStmt] at h
-    exact foldlM_all _ _ (fun s s' p hp => visitPlace_static hp rfl) srcs s s' h
-
-theorem checkBlock_static {P : Prog} {b : Blk} {s : Scope} (h : checkBlock P b = .ok s) :
-    ∀ st ∈ P.stmts b, st.StaticOK P := by
+theorem checkBlock_proj {P : Prog} {l : Leaf} {b : Blk} {s : Scope} (h : checkBlock P b = .ok s) :
+    (s.parent = (initScope P b).parent ∧ s.linParent = (initScope P b).linParent) ∧
+      crun ((initScope P b).parent.contains l) ((initScope P b).proj l) ((P.stmts b).flatMap (Stmt.evs l)) =
+        some (s.proj l) ∧
+      ∀ st ∈ P.stmts b, st.StaticOK P := by
   unfold checkBlock at h
-  exact foldlM_all _ _ (fun s s' st hs => checkStmt_static hs) (P.stmts b) _ s h
+  exact foldlM_proj l (checkStmt P) (Stmt.evs l) (Stmt.StaticOK P) (fun s s' st hs => checkStmt_proj hs)
+    (P.stmts b) (initScope P b) s h
 
-/-! ### the bookkeeping simulates the ownership semantics -/
+/-! ### the bookkeeping simulates the ownership semantics (on well-kinded events) -/
 
-/-- how the bookkeeping `c` of a block determines the ownership state `o`, given that the leaf
-    was owned (`o0`) on entering the block -/
-def Rel (o0 : Bool) (c : LSt) (o : Bool) : Prop :=
-  if c.inVars then o = !c.usedLocal else if c.usedParent then o = false else o = o0
+/-- the kind of the current binding, read off the bookkeeping; `k0` = kind in the input row -/
+def KInv (k0 : Option Bool) (c : LSt) (k : Option Bool) : Prop :=
+  if c.inVars then k = some c.kLoc else k = k0
+
+/-- how the bookkeeping `c` of a block determines whether a linear value is held (`o`), given
+    the state `o0` on entering the block and the kind `k0` of the leaf in the input row -/
+def Rel (o0 : Bool) (k0 : Option Bool) (c : LSt) (o : Bool) : Prop :=
+  if c.inVars then o = (c.kLoc && !c.usedLocal)
+  else if c.usedParent && (k0 == some true) then o = false else o = o0
 
 theorem cstep_mono {inPar : Bool} {c c' : LSt} {e : Ev} (h : cstep inPar c e = some c') :
     (c.inVars = true → c'.inVars = true) ∧ (c.usedParent = true → c'.usedParent = true) ∧
       (c.inVars = true → c'.usedParent = c.usedParent) ∧ (inPar = false → c'.usedParent = c.usedParent) := by
-  rcases c with ⟨a, b, d⟩
-  cases e <;> cases a <;> cases b <;> cases d <;> cases inPar <;> simp [cstep] at h <;> subst h <;> simp
+  rcases c with ⟨a, k, b, d⟩
+  rcases e with ⟨op, el⟩
+  cases op <;> cases a <;> cases b <;> cases d <;> cases inPar <;> cases el <;> cases k <;>
+    simp [cstep] at h <;> subst h <;> simp
 
 theorem crun_mono {inPar : Bool} {es : List Ev} {c c1 : LSt} (h : crun inPar c es = some c1) :
     (c.inVars = true → c1.inVars = true) ∧ (c.usedParent = true → c1.usedParent = true) ∧
@@ -465,53 +390,74 @@ theorem crun_mono {inPar : Bool} {es : List Ev} {c c1 : LSt} (h : crun inPar c e
       obtain ⟨b1, b2, b3, b4⟩ := ih h
       refine ⟨fun x => b1 (a1 x), fun x => b2 (a2 x), fun x => (b3 (a1 x)).trans (a3 x), fun x => (b4 x).trans (a4 x)⟩
 
-theorem sim_step {inPar : Bool} {c c' : LSt} {e : Ev} {o o0 : Bool} (h : cstep inPar c e = some c')
-    (hr : Rel o0 c o) (hA : c'.usedParent = true → c.usedParent = false → o0 = true)
-    (hB : c'.inVars = true → c'.usedParent = false → c.inVars = false → e = Ev.asg → o0 = false) :
-    ∃ o', Ev.step o e = some o' ∧ Rel o0 c' o' := by
-  rcases c with ⟨a, b, d⟩
-  cases e <;> cases a <;> cases b <;> cases d <;> cases inPar <;> simp [cstep] at h <;> subst h <;>
-    cases o <;> cases o0 <;> simp_all [Rel, Ev.step]
+theorem sim_step {inPar : Bool} {c c' : LSt} {e : Ev} {o o0 : Bool} {k k' k0 : Option Bool}
+    (h : cstep inPar c e = some c') (hk : Ev.kstep k e = some k') (hi : KInv k0 c k) (hr : Rel o0 k0 c o)
+    (hK : k0 ≠ some true → o0 = false)
+    (hA : c'.usedParent = true → c.usedParent = false → k0 = some true → o0 = true)
+    (hB : c'.inVars = true → c'.usedParent = false → c.inVars = false → e.op = Op.asg → o0 = false) :
+    ∃ o', Ev.step o e = some o' ∧ KInv k0 c' k' ∧ Rel o0 k0 c' o' := by
+  rcases c with ⟨a, kl, b, d⟩
+  rcases e with ⟨op, el⟩
+  cases a
+  · -- not in `vars`: the binding is the one of the input row
+    simp only [KInv, Bool.false_eq_true, if_false] at hi
+    subst hi
+    cases op <;> cases b <;> cases d <;> cases inPar <;> cases el <;> simp [cstep] at h <;> subst h <;>
+      cases o <;> cases o0 <;> rcases k with _ | _ | _ <;>
+      simp_all [Rel, KInv, Ev.step, Ev.kstep]
+  · simp only [KInv, if_true] at hi
+    subst hi
+    cases op <;> cases b <;> cases d <;> cases inPar <;> cases el <;> cases kl <;> simp [cstep] at h <;>
+      subst h <;> cases o <;> simp_all [Rel, KInv, Ev.step, Ev.kstep]
 
-theorem sim {inPar : Bool} {o0 : Bool} : ∀ (es : List Ev) (c c1 : LSt) (o : Bool),
-    crun inPar c es = some c1 → Rel o0 c o →
-    (c1.usedParent = true → c.usedParent = false → o0 = true) →
+theorem sim {inPar : Bool} {o0 : Bool} {k0 : Option Bool} (hK : k0 ≠ some true → o0 = false) :
+    ∀ (es : List Ev) (c c1 : LSt) (o : Bool) (k k1 : Option Bool),
+    crun inPar c es = some c1 → krun k es = some k1 → KInv k0 c k → Rel o0 k0 c o →
+    (c1.usedParent = true → c.usedParent = false → k0 = some true → o0 = true) →
     (c1.inVars = true → c1.usedParent = false → c.inVars = false → o0 = false) →
-    ∃ o1, runEvs o es = some o1 ∧ Rel o0 c1 o1 := by
+    ∃ o1, runEvs o es = some o1 ∧ KInv k0 c1 k1 ∧ Rel o0 k0 c1 o1 := by
   intro es
   induction es with
   | nil =>
-    intro c c1 o h hr _ _
+    intro c c1 o k k1 h hk hi hr _ _
     simp [crun] at h
-    subst h
-    exact ⟨o, rfl, hr⟩
+    simp [krun] at hk
+    subst h; subst hk
+    exact ⟨o, rfl, hi, hr⟩
   | cons e es ih =>
-    intro c c1 o h hr hA hB
+    intro c c1 o k k1 h hk hi hr hA hB
     simp only [crun] at h
+    simp only [krun] at hk
     cases h1 : cstep inPar c e with
     | none => simp [h1] at h
     | some c' =>
-      simp only [h1] at h
-      obtain ⟨a1, a2, a3, _⟩ := cstep_mono h1
-      obtain ⟨b1, b2, b3, _⟩ := crun_mono h
-      obtain ⟨o', ho', hr'⟩ := sim_step h1 hr
-        (fun x y => hA (b2 x) y)
-        (fun x y z _ => hB (b1 x) ((b3 x).trans y) z)
-      obtain ⟨o1, ho1, hr1⟩ := ih c' c1 o' h hr'
-        (fun x y => hA x (by
-          cases hc : c.usedParent with
-          | false => rfl
-          | true => rw [a2 hc] at y; cases y))
-        (fun x y z => hB x y (by
-          cases hc : c.inVars with
-          | false => rfl
-          | true => rw [a1 hc] at z; cases z))
-      exact ⟨o1, by simp [runEvs, ho', ho1], hr1⟩
+      cases h2 : Ev.kstep k e with
+      | none => simp [h2] at hk
+      | some k' =>
+        simp only [h1] at h
+        simp only [h2] at hk
+        obtain ⟨a1, a2, a3, _⟩ := cstep_mono h1
+        obtain ⟨b1, b2, b3, _⟩ := crun_mono h
+        obtain ⟨o', ho', hi', hr'⟩ := sim_step h1 h2 hi hr hK
+          (fun x y z => hA (b2 x) y z)
+          (fun x y z _ => hB (b1 x) ((b3 x).trans y) z)
+        obtain ⟨o1, ho1, hi1, hr1⟩ := ih c' c1 o' k' k1 h hk hi' hr'
+          (fun x y z => hA x (by
+            cases hc : c.usedParent with
+            | false => rfl
+            | true => rw [a2 hc] at y; cases y) z)
+          (fun x y z => hB x y (by
+            cases hc : c.inVars with
+            | false => rfl
+            | true => rw [a1 hc] at z; cases z))
+        exact ⟨o1, by simp [runEvs, ho', ho1], hi1, hr1⟩
+
+def Ev.isUse' (e : Ev) : Prop := e.op = Op.use
 
 /-- a leaf that ends up in `used_parent` was read before anything else happened to it -/
 theorem crun_usedParent_head {inPar : Bool} {es : List Ev} {c c1 : LSt} (h : crun inPar c es = some c1)
     (hv : c.inVars = false) (hu : c.usedParent = false) (h1 : c1.usedParent = true) :
-    es.head? = some Ev.use := by
+    es.head?.map Ev.isUse = some true := by
   cases es with
   | nil => simp [crun] at h; subst h; rw [hu] at h1; cases h1
   | cons e es =>
@@ -520,7 +466,8 @@ theorem crun_usedParent_head {inPar : Bool} {es : List Ev} {c c1 : LSt} (h : cru
     | none => simp [hc] at h
     | some c' =>
       simp only [hc] at h
-      cases e with
+      rcases e with ⟨op, el⟩
+      cases op with
       | use => rfl
       | give =>
         simp [cstep] at hc
@@ -546,7 +493,8 @@ theorem crun_untouched {inPar : Bool} {es : List Ev} {c c1 : LSt} (h : crun inPa
     | some c' =>
       simp only [hc] at h
       obtain ⟨b1, b2, _, _⟩ := crun_mono h
-      cases e with
+      rcases e with ⟨op, el⟩
+      cases op with
       | use =>
         simp [cstep, hv] at hc
         obtain ⟨_, _, hc⟩ := hc
